@@ -119,6 +119,9 @@ CONSTANT SubmeshStep,
                            \* "size" : (section size - 16) / 4, the pre-fix rule (named deviation, must be refuted)
          RelocAdvanceAlways, \* FALSE as coded: an array whose original offset is already mapped (shared key-frame data) keeps
                            \* its offset and does NOT advance the running offset; TRUE = named deviation (must be refuted)
+         CollectSkipRule,  \* which structures the reader may skip when it preserves key-frame arrays: "all-empty" = only a structure
+                           \* whose arrays are ALL empty (what the property demands); "no-keys" = also one with ranges but neither
+                           \* timestamps nor values (as coded for tracks: named deviation); "no-times" = one without timestamps (seeded s10)
          SaveTruncates,    \* TRUE as coded: save(path) creates/truncates the destination (File::create); FALSE = named deviation
                            \* (opened for writing without truncation: the tail of a longer existing file survives)
          ViewBatchBytes    \* bytes per batch the WRITER of embedded views divides by: 24 as fixed (1115b56); 96 = pre-fix deviation
@@ -396,6 +399,14 @@ ExpectedProfiles(vfrom, vto, nviews, srcprofiles) ==
   ELSE IF VerNum(vfrom) <= 263 THEN (IF nviews > 0 THEN nviews ELSE 1) ELSE srcprofiles
 ExpectedViewsAfterParse(vfrom, vto, nviews) ==
   IF VerNum(vto) > 263 THEN 0 ELSE IF VerNum(vfrom) <= 263 THEN nviews ELSE 0
+
+\* Parallel arrays of one structure (interpolation ranges x timestamps x values of a track; ranges x timestamps of an event)
+\* are present or absent independently: the writer accepts all 2^k combinations (none is rejected with Err), so every
+\* non-empty array of an accepted object must survive write -> parse.  mask: bit 1 ranges, 2 timestamps, 4 values.
+Skipped(mask) == CASE CollectSkipRule = "all-empty" -> mask = 0
+                   [] CollectSkipRule = "no-keys"   -> mask \in {0, 1}
+                   [] CollectSkipRule = "no-times"  -> mask \in {0, 1, 4, 5}
+ArraysPreserved == \A mask \in 0..7 : Skipped(mask) => mask = 0
 
 \* save(path) next to write(&mut W): whatever the destination held before {absent, shorter file, longer file}, afterwards the
 \* file IS the bytes write produces.  Lengths suffice to state it: a non-truncating open leaves Max(len, prelen) bytes.
